@@ -14,11 +14,12 @@ pub fn key_lit_small() -> impl Strategy<Value = Vec<u8>> {
 
 pub fn key_spec() -> impl Strategy<Value = KeySpec> {
     prop_oneof![
-        60 => key_lit_small().prop_map(KeySpec::Lit),
-        25 => (any::<u16>(), 0u8..6).prop_map(|(f, h)| KeySpec::Der(f, h)),
-        10 => (any::<u16>(), any::<bool>()).prop_map(|(f, z)| KeySpec::FfPair(f, z)),
-        4 => vec(any::<u8>(), 5..64).prop_map(KeySpec::Lit),
-        1 => vec(any::<u8>(), 64..300).prop_map(KeySpec::Lit), // record ids longer than 127 and 255 bytes
+        120 => key_lit_small().prop_map(KeySpec::Lit),
+        50 => (any::<u16>(), 0u8..6).prop_map(|(f, h)| KeySpec::Der(f, h)),
+        20 => (any::<u16>(), any::<bool>()).prop_map(|(f, z)| KeySpec::FfPair(f, z)),
+        8 => vec(any::<u8>(), 5..64).prop_map(KeySpec::Lit),
+        2 => vec(any::<u8>(), 64..300).prop_map(KeySpec::Lit), // record ids longer than 127 and 255 bytes
+        1 => (0u8..24, 0u8..3).prop_map(|(c, f)| KeySpec::Long(c, f)), // 1 KiB .. 16 KiB, see `common::long_key_len`
     ]
 }
 
